@@ -2,7 +2,8 @@
 """
 mk_c02_pyspark.py — runs C02 programs on live PySpark (local JVM) and records what PySpark returns.
 
-  PYSPARK_PYTHON=/venv/bin/python /venv/bin/python tools/oracle/mk_c02_pyspark.py            # rebuild tools/oracle/c02_pyspark.json
+  PYSPARK_PYTHON=/venv/bin/python /venv/bin/python tools/oracle/mk_c02_pyspark.py            # re-record the standard sample (programs recorded earlier are kept; --fresh drops them)
+  ... mk_c02_pyspark.py --add                                                                 # record only the programs of the standard sample that are not in the file yet
   ... mk_c02_pyspark.py --stdin  < cases.json                                                 # results for the given programs on stdout (last line)
 
 The recorded file is what the quick tier validates the Lean specification (`runSpec`) against.
@@ -79,6 +80,11 @@ def main():
         print(json.dumps(run_all(cases)))
         return
     cases = standard_cases()
+    if "--add" in sys.argv:
+        # only the programs of today's standard sample that are not recorded yet
+        have0 = {vlib.digest(r["frames"]) for r in json.load(open(os.path.join(HERE, "c02_pyspark.json")))["cases"]}
+        cases = [c for c in cases if vlib.digest(c["frames"]) not in have0]
+        print(f"{len(cases)} new programs", file=sys.stderr)
     res = run_all(cases)
     # the scope hypotheses each program violates (from the Lean model), so the oracle can stand in for the
     # specification when the model cannot be built
